@@ -634,6 +634,11 @@ pub fn preempt_point() {
             return;
         }
         sim.stats.atomic_ops += 1;
+        // the sequential strategy never pre-empts; and a run offers the baton at most 50 000 times
+        // inside jobs (code that performs millions of atomic operations must not exhaust the step budget)
+        if matches!(sim.cfg.strategy, Strategy::Sequential) || sim.stats.atomic_points >= 50_000 {
+            return;
+        }
         if (sim.arng.next() & 0xff) >= sim.cfg.atomic_rate as u64 {
             return;
         }
